@@ -7,6 +7,7 @@ from fractions import Fraction as Fr
 
 import core
 import gen
+import large
 from core import Nat
 from inputs import T, eff, mrts_grid, maxtau_grid, nontrivial_pair
 
@@ -40,6 +41,151 @@ def pairs_for(ctx, limit_ex=None, n_rand=None):
     ctx.bump("pairs_exhaustive_g%d%s" % (g1, "" if full else "_sampled"), len(ex))
     ctx.bump("pairs_random_g%d" % g2, len(rnd))
     return [(ex, g1), (rnd, g2)]
+
+
+def large_on(ctx):
+    """the LARGE inputs (large.py) run on shard 0 of the float workers of both backends"""
+    return ctx.shard == 0 and not ctx.exact
+
+
+def large_pair_cases(ctx, rids):
+    """correspondence cases on long trains (bursts, silent tails, long tails, 128 = 64 + 64 spikes, ...) for the pair
+    routines named in rids"""
+    if not large_on(ctx):
+        return []
+    cases = []
+    for k, (a, b) in enumerate(large.long_pairs(ctx.seed)):
+        sa, sb = a[:110], b[:110]           # the SPIKE model is cubic in the extracted arithmetic: at most 110 spikes there
+        for v in range(2):
+            m = large.LONG_MRTS[(k + v) % 3]
+            mt = large.LONG_MAXTAU[(k // 3 + v) % 3]
+            ri = (k + v) % 2 == 0
+            A, B = T(a), T(b)
+            for rid in rids:
+                if rid in (2, 11, 51, 55):
+                    continue        # the extracted SPIKE model is far too slow on long trains: large_spike_oracle instead
+                if rid in (1, 10):
+                    cases.append((rid, [eff(a), eff(b), Z, ONE, m]))
+                elif rid in (2, 11):
+                    cases.append((rid, [eff(sa), eff(sb), Z, ONE, m, ri]))
+                elif rid in (6, 7, 8, 9, 12, 13, 14):
+                    cases.append((rid, [a, b, Z, ONE, mt, m]))
+                elif rid == 50:
+                    cases.append((50, [v == 1, m, A, B]))
+                elif rid == 51:
+                    cases.append((51, [v == 1, m, ri, T(sa), T(sb)]))
+                elif rid in (52, 53):
+                    cases.append((rid, [v == 1, mt, m, A, B]))
+                elif rid == 54:
+                    cases.append((54, [False, m, None if v else [Fr(1, 8), Fr(7, 8)], A, B]))
+                elif rid == 55:
+                    cases.append((55, [False, m, ri, None if v else [Fr(1, 8), Fr(7, 8)], T(sa), T(sb)]))
+                elif rid == 56:
+                    cases.append((56, [False, mt, m, None if v else [Fr(1, 8), Fr(7, 8)], A, B]))
+                elif rid in (71, 74):
+                    cases.append((rid, [False, v == 1, mt, m, A, B]))
+    ctx.bump("large_pair_cases", len(cases))
+    return cases
+
+
+def large_list_cases(ctx, rids, sizes=(17, 31, 34), medium=True):
+    """correspondence cases on lists of many trains (pair counts with every remainder modulo 16; summed profiles with
+    1000+ points and events on the edges) for the multivariate routines named in rids"""
+    if not large_on(ctx):
+        return []
+    cases = []
+    lists = [large.many_trains(ctx.seed, n) for n in sizes]
+    if medium:
+        lists.append(large.medium_trains(ctx.seed, 16))
+    for k, L in enumerate(lists):
+        TL = [T(x) for x in L]
+        m = [Z, Fr(1, 32), Fr(3, 2)][k % 3]
+        mt = [Z, Fr(1, 64), Fr(1, 8)][k % 3]
+        ri = k % 2 == 0
+        n = len(L)
+        sel = [Nat(i) for i in range(n - 1, 0, -2)]                 # a long non-identity selection
+        for rid in rids:
+            if rid in (61, 65, 68):
+                continue            # SPIKE: see large_spike_oracle
+            for ix in (None, sel):
+                if rid == 60:
+                    cases.append((60, [False, m, TL, ix]))
+                elif rid == 61:
+                    cases.append((61, [False, m, ri, TL, ix]))
+                elif rid in (62, 63):
+                    cases.append((rid, [False, mt, m, TL, ix]))
+                elif rid in (64, 67):
+                    cases.append((rid, [False, m, None, TL, ix]))
+                elif rid in (65, 68):
+                    cases.append((rid, [False, m, ri, None, TL, ix]))
+                elif rid in (66, 69):
+                    cases.append((rid, [False, mt, m, None, TL, ix]))
+                elif rid == 72:
+                    cases.append((72, [False, ri, mt, m, TL, ix]))
+                elif rid == 73:
+                    cases.append((73, [False, mt, m, TL, ix]))
+                elif rid == 75:
+                    cases.append((75, [False, ri, mt, m, TL, ix]))
+    ctx.bump("large_list_cases", len(cases))
+    return cases
+
+
+def large_spike_oracle(ctx, what):
+    """SPIKE measures on long trains (large.py) WITHOUT the model (its extracted arithmetic is far too slow there):
+    the compiled-source kernel against the Python-text kernel (equal texts by theorem, Props/C12.v), and at the API
+    level: nothing raises, the time axis is the strictly increasing union of both trains' spikes and the edges, values
+    within [0,1], the profile of (a,b) is that of (b,a), the distance is the average of the profile."""
+    if not large_on(ctx):
+        return
+    ps = ctx.ps
+    q = ctx.impl._quiet
+    pyimpl = _py_impl(ctx) if ctx.cy else None
+    for k, (a, b) in enumerate(large.long_pairs(ctx.seed)):
+        m = large.LONG_MRTS[k % 3]
+        ri = k % 2 == 0
+        ctx.nontrivial(("large_spike", what, k))
+        if pyimpl is not None:
+            args = [eff(a), eff(b), Z, ONE, m, ri]
+            x = ctx.call(2, args)
+            y = core.call_impl(pyimpl.call, 2, args)
+            ctx.check()
+            if not feq(x, y):
+                ctx.violate("SPIKE profile kernel on long trains: compiled source and Python fall-back differ", "2", args,
+                            expected=y, got=x, rid=2)
+            d = ctx.call(11, args)
+            if not isinstance(y, core.Err):
+                av = int_pwl(y) / (y[0][-1] - y[0][0])
+                if not (isinstance(d, float) and core.close(d, av)):
+                    ctx.violate("single-pass SPIKE distance on long trains != average of the fall-back profile", "11", args,
+                                expected=av, got=d, rid=11)
+        A, B = ctx.impl.train(T(a)), ctx.impl.train(T(b))
+        kw = ctx.impl.kw(False, m, ri)
+
+        def prof(u, v):
+            p_ = ps.spike_profile(u, v, **kw)
+            return [p_.x.tolist(), p_.y1.tolist(), p_.y2.tolist()]
+        res = core.call_impl(lambda: q(lambda: [prof(A, B), prof(B, A), float(ps.spike_distance(A, B, **kw)),
+                                                float(ps.spike_profile(A, B, **kw).avrg()),
+                                                float(ps.spike_distance(A, A, **kw))]))
+        ctx.check()
+        if isinstance(res, core.Err):
+            ctx.violate("SPIKE profile / distance raises on long trains", "spike_profile", [T(a), T(b), m, ri], got=res, rid=51)
+            continue
+        pab, pba, dab, avab, daa = res
+        want_x = sorted(set([0.0, 1.0] + [float(x_) for x_ in a] + [float(x_) for x_ in b]))
+        bad = None
+        if pab[0] != want_x:
+            bad = "time axis is not the strictly increasing union of the spikes and the edges"
+        elif not all(core.all_finite(v_) and -1e-12 <= v_ <= 1 + 1e-12 for v_ in pab[1] + pab[2]):
+            bad = "values outside [0,1] / not finite"
+        elif not feq(pab, pba):
+            bad = "profile(a, b) != profile(b, a)"
+        elif not core.close(dab, avab):
+            bad = "distance != average of the profile"
+        elif abs(daa) > 1e-12:
+            bad = "distance of a train with itself != 0"
+        if bad:
+            ctx.violate("SPIKE on long trains: " + bad, "spike_profile", [T(a), T(b), m, ri], got=[dab, avab, daa], rid=51)
 
 
 def feq(a, b, tol=core.TOL):
@@ -152,6 +298,8 @@ def c01(ctx):
         sh = [x * 3 - 1 for x in a], [x * 3 - 1 for x in b]
         cases.append((1, [eff(sh[0], Fr(-1), Fr(2)), eff(sh[1], Fr(-1), Fr(2)), Fr(-1), Fr(2), Fr(1, 2)]))
     ctx.corr(cases, pair_nt)
+    # LARGE inputs (large.py): long trains, many trains - branches that only run above a size threshold
+    ctx.corr(large_pair_cases(ctx, (1, 50, 54)) + large_list_cases(ctx, (60,), sizes=(17, 34)), lambda rid, a: True, affine_copies=False)
 
 
 def spec_vs_impl(ctx, quads, what, tol=core.TOL, proj=None):
@@ -308,6 +456,9 @@ def c02(ctx):
                     if any(abs(v) > 1e-12 for v in lim):
                         ctx.violate("profile not 0 at shared spike", "spike_profile", [T(a), T(b)],
                                     expected=0, got=lim)
+    # LARGE inputs (large.py)
+    ctx.corr(large_pair_cases(ctx, (2, 51, 55)) + large_list_cases(ctx, (61,), sizes=(17, 34)), lambda rid, a: True, affine_copies=False)
+    large_spike_oracle(ctx, 'c02')
 
 
 # ---------------------------------------------------------------------------
@@ -414,6 +565,8 @@ def c03(ctx):
                 if abs(sum(ca) - sum(cb)) > 1e-12:
                     ctx.violate("unbalanced coincidence counts", "coincidence_single", [a, b, Z, ONE, mt, m],
                                 expected="sum equal", got=[ca, cb])
+    # LARGE inputs (large.py)
+    ctx.corr(large_pair_cases(ctx, (6, 7, 52, 56)) + large_list_cases(ctx, (62, 66), sizes=(17, 31)), lambda rid, a: True, affine_copies=False)
 
 
 # ---------------------------------------------------------------------------
@@ -545,6 +698,16 @@ def c04(ctx):
                 ctx.check()
                 if not feq(x, y):
                     ctx.violate("indices != sub-list", str(rid), args_i, expected=y, got=x, rid=rid)
+    # LARGE inputs (large.py); a synfire chain of 140 trains: every spike leads / follows more than 128 others
+    lc = large_pair_cases(ctx, (8, 9, 53, 71, 74)) + large_list_cases(ctx, (63, 72, 73, 75), sizes=(17, 31))
+    if large_on(ctx):
+        XL = [T(x) for x in large.medium_trains(ctx.seed, 8, k=150, g=4096)]     # summed profiles with 1200+ points, edge events
+        lc += [(63, [False, Z, Z, XL, None]), (63, [False, Fr(1, 256), Fr(1, 64), XL, [Nat(5), Nat(0), Nat(7), Nat(2)]]),
+               (72, [False, True, Z, Z, XL, None]), (62, [False, Z, Z, XL, None])]
+        SF = [T(x) for x in large.synfire(140)]
+        lc += [(73, [False, Z, Z, SF, None]), (73, [False, Z, Z, SF, [Nat(i) for i in range(139, 4, -1)]]),
+               (72, [False, False, Z, Z, SF, None])]
+    ctx.corr(lc, lambda rid, a: True, affine_copies=False)
 
 
 # ---------------------------------------------------------------------------
@@ -683,6 +846,18 @@ def c05(ctx):
                 ctx.violate("order: MRTS='auto' with indices: scalar != average of the profile", "spike_train_order",
                             [TL, sel], expected=pv, got=sv)
     ctx.corr(cases, lambda rid, a: True)
+    # LARGE inputs (large.py): single-pass routes and profile routes on long trains and long lists
+    ctx.corr(large_pair_cases(ctx, (54, 55, 56, 71, 10, 11, 12, 13, 14)) +
+             large_list_cases(ctx, (64, 65, 66, 72), sizes=(18, 24, 34)), lambda rid, a: True, affine_copies=False)
+    if large_on(ctx):
+        for L in (large.medium_trains(ctx.seed, 16), large.many_trains(ctx.seed, 24), [large.long_pairs(ctx.seed)[0][0]] + large.many_trains(ctx.seed, 5)):
+            TLl = [T(x) for x in L]
+            nl = len(TLl)
+            chk_scalar_profile(ctx, "spike-multi-large", 65, [False, Fr(1, 64), True, None, TLl, None], 61, [False, Fr(1, 64), True, TLl, None], 28, None)
+            chk_scalar_profile(ctx, "isi-multi-large", 64, [False, Z, None, TLl, None], 60, [False, Z, TLl, None], 23, None)
+            if nl >= 18:
+                ixl = [Nat(i) for i in range(nl - 17, nl)]
+                chk_scalar_profile(ctx, "sync-multi-large-idx", 66, [False, Z, Z, None, TLl, ixl], 62, [False, Z, Z, TLl, ixl], 34, None)
 
 
 def chk_scalar_profile(ctx, what, rid_s, args_s, rid_p, args_p, rid_avrg, ivs):
@@ -955,6 +1130,38 @@ def c06(ctx):
                     ctx.violate("%s(list, MRTS='auto') != mean of the pair distances at the pooled threshold / != average "
                                 "of the 'auto' multivariate profile" % name, name, [TL], expected=[dsa, Pa], got=Da)
     ctx.corr(cases, lambda rid, a: sum(len(t[0]) for t in a[-2]) >= 3)
+    # LARGE inputs (large.py): many trains (17, 31, 34: every kind of remainder in block-wise reductions) and summed
+    # profiles with 1000+ points and events on the edges
+    xl6 = []
+    if large_on(ctx):
+        XL = [T(x) for x in large.medium_trains(ctx.seed, 8, k=150, g=4096)]     # summed profiles with 1200+ points, edge events
+        xl6 = [(62, [False, Z, Z, XL, None]), (66, [False, Z, Z, None, XL, None]), (60, [False, Z, XL, None]),
+               (62, [False, Fr(1, 256), Z, XL, [Nat(7), Nat(0), Nat(5)]])]
+    ctx.corr(large_list_cases(ctx, (60, 61, 62, 64, 65, 66, 67, 68, 69)) + xl6, lambda rid, a: True, affine_copies=False)
+    # SPIKE / ISI on large lists without the model: the multivariate profile is the mean of the pair profiles at sample
+    # times, the distance is the average of the profile and the mean of the pair distances
+    if large_on(ctx):
+        import numpy as np
+        for Lm in (large.medium_trains(ctx.seed, 16), [large.long_pairs(ctx.seed)[0][0]] + large.many_trains(ctx.seed, 5),
+                   large.many_trains(ctx.seed, 31)):
+            stl = ctx.impl.trains([T(x) for x in Lm])
+            nl = len(stl)
+            qq_ = ctx.impl._quiet
+            prs_ = [(i, j) for i in range(nl) for j in range(i + 1, nl)]
+            times = [0.0078125 * k_ + 0.001953125 for k_ in range(1, 127, 9)]
+            for name, fp_, fd_ in (("spike", ctx.ps.spike_profile, ctx.ps.spike_distance),
+                                   ("isi", ctx.ps.isi_profile, ctx.ps.isi_distance)):
+                got = core.call_impl(lambda: qq_(lambda: [[float(v_) for v_ in np.atleast_1d(fp_(stl)(times))],
+                                                          float(fd_(stl)), float(fp_(stl).avrg())]))
+                want = core.call_impl(lambda: qq_(lambda: [
+                    [float(sum(col) / len(prs_)) for col in zip(*[np.atleast_1d(fp_(stl[i], stl[j])(times)) for i, j in prs_])],
+                    float(sum(fd_(stl[i], stl[j]) for i, j in prs_) / len(prs_))]))
+                ctx.check()
+                ctx.nontrivial(("c06large", name, nl))
+                if isinstance(got, core.Err) or isinstance(want, core.Err) or not feq(got[0], want[0], 1e-9) \
+                        or not core.close(got[1], want[1]) or not core.close(got[1], got[2]):
+                    ctx.violate("%s of a large list: multivariate profile != mean of the pair profiles / distance != mean of "
+                                "pairs / != profile average" % name, name + "_profile", [Nat(nl)], expected=want, got=got)
 
 
 # ---------------------------------------------------------------------------
@@ -1114,6 +1321,29 @@ def c07(ctx):
                     elif L[sel2[0]] == L[sel2[1]] and abs(v - ident) > 1e-12:
                         ctx.violate("%s of a train selected together with itself / an equal copy != identity value" % nm,
                                     str(rid), args, expected=ident, got=v, rid=rid)
+    # LARGE inputs (large.py)
+    ctx.corr(large_pair_cases(ctx, (54, 55, 56)) + large_list_cases(ctx, (64, 65, 66), sizes=(17,), medium=False), lambda rid, a: True,
+             affine_copies=False)
+    if large_on(ctx):
+        qa_ = ctx.impl._quiet
+        lps_ = large.long_pairs(ctx.seed)
+        a6 = large._fr(sorted(r.sample(range(0, 4097), 600)))
+        b6 = large._fr(sorted(r.sample(range(0, 4097), 7)))
+        extra = [(a6, b6), (lps_[2][1], lps_[2][0]), ([x_ + Fr(1, 8) for x_ in lps_[13][0] if x_ + Fr(1, 8) <= 1], lps_[13][1])]
+        ctx.corr([(56, [False, mt_, Z, None, T(b_), T(a_)]) for a_, b_ in lps_ + extra for mt_ in (Z, Fr(1, 64))] +
+                 [(54, [False, Z, None, T(b_), T(a_)]) for a_, b_ in extra], lambda rid, a: True, affine_copies=False)
+        for a_, b_ in lps_[:6] + extra:
+            A_, B_ = ctx.impl.train(T(a_)), ctx.impl.train(T(b_))
+            for nm, f in (("isi_distance", ctx.ps.isi_distance), ("spike_distance", ctx.ps.spike_distance),
+                          ("spike_sync", ctx.ps.spike_sync)):
+                v = core.call_impl(lambda: qa_(lambda: float(f(A_, B_, MRTS='auto'))))
+                w = core.call_impl(lambda: qa_(lambda: float(f(B_, A_, MRTS='auto'))))
+                ctx.check()
+                ctx.nontrivial(("c07autolarge", nm, len(a_), len(b_)))
+                if not (isinstance(v, float) and isinstance(w, float) and -1e-12 <= v <= 1 + 1e-12 and core.close(v, w)):
+                    ctx.violate("%s with MRTS='auto' on long trains: not symmetric / outside [0,1]" % nm, nm,
+                                [Nat(len(a_)), Nat(len(b_))], expected=v, got=w)
+    large_spike_oracle(ctx, 'c07')
 
 
 # ---------------------------------------------------------------------------
@@ -1323,6 +1553,17 @@ def c08(ctx):
         ctx.check()
         if not feq([v * float(k) for v in x] if not isinstance(x, core.Err) else x, y):
             ctx.violate("isi_lengths not shift/scale equivariant", "isi_lengths", [t, k], expected=x, got=y)
+    # LARGE inputs (large.py): a long stretch at the END of the recording is a long stretch at the START of the mirrored
+    # one - both are tied to the model here, which is mirror-symmetric by theorem
+    if large_on(ctx):
+        lp = []
+        for a, b in large.long_pairs(ctx.seed):
+            ma, mb = sorted(ONE - x for x in a), sorted(ONE - x for x in b)
+            for m_ in (Z, Fr(3, 2)):
+                lp += [(50, [False, m_, T(a), T(b)]), (50, [False, m_, T(ma), T(mb)]),
+                       (52, [False, Fr(1, 16), m_, T(a), T(b)]), (52, [False, Fr(1, 16), m_, T(ma), T(mb)]),
+                       (53, [False, Z, m_, T(ma), T(mb)])]
+        ctx.corr(lp, lambda rid, a: True, affine_copies=False)
 
 
 # ---------------------------------------------------------------------------
@@ -1611,6 +1852,29 @@ def c09(ctx):
         ctx.check()
         if not all(feq(res[0], x) for x in res[1:]):
             ctx.violate("sum depends on the order of additions", "pwl add x3", [list(f) for f in fs], got=res[:2])
+    # LARGE inputs (large.py): runs of >= 8 breakpoints of one operand inside one piece of the other, ending in a shared
+    # breakpoint (both orders); a long receiver with a coarse operand that brings two new breakpoints; 1000+ points
+    if large_on(ctx):
+        lc = []
+        for sd in range(3):
+            fine, coarse = large.run_then_tie(ctx.seed + sd, nrun=8 + 2 * sd)
+            yf, yc = large.vals(sd + 1, len(fine) - 1), large.vals(sd + 7, len(coarse) - 1)
+            yf2, yc2 = large.vals(sd + 3, len(fine) - 1), large.vals(sd + 9, len(coarse) - 1)
+            lc += [(20, [fine, yf, coarse, yc]), (20, [coarse, yc, fine, yf]),
+                   (21, [fine, yf, yf2, coarse, yc, yc2]), (21, [coarse, yc, yc2, fine, yf, yf2])]
+        for npieces in (96, 130, 400):
+            xl, yl = large.long_pwc(ctx.seed, npieces)
+            new = [x_ for x_ in (Fr(1001, 4096 * 2), Fr(4095, 4096 * 2), Fr(6001, 4096 * 2)) if x_ not in xl]
+            for op in ([Z] + new[:2] + [ONE], [Z] + new + [ONE], [Z, xl[5], ONE], [Z, ONE]):
+                yo = large.vals(len(op), len(op) - 1)
+                lc += [(20, [xl, yl, op, yo]), (20, [op, yo, xl, yl])]
+            x2, y2 = large.long_pwc(ctx.seed + 5, npieces + 20)
+            lc += [(20, [xl, yl, x2, y2])]
+            xq, q1, q2 = large.long_pwl(ctx.seed, npieces)
+            xr, r1, r2 = large.long_pwl(ctx.seed + 5, npieces + 20)
+            lc += [(21, [xq, q1, q2, xr, r1, r2])]
+        ctx.bump("large_func_cases", len(lc))
+        ctx.corr(lc, lambda rid, a: True, affine_copies=False)
 
 
 def _arrs(o_):
@@ -1781,6 +2045,46 @@ def c10(ctx):
             if not feq(a, b):
                 ctx.violate("scalar and list evaluation differ for integer-valued function", "pwc.__call__",
                             [xs, [Fr(y) for y in ys], x], expected=a, got=b)
+    # LARGE inputs (large.py): functions with hundreds of pieces, intervals that cover more than 256 of them
+    if large_on(ctx):
+        lc = []
+        for npieces in (260, 300, 700):
+            xl, yl = large.long_pwc(ctx.seed, npieces)
+            xq, q1, q2 = large.long_pwl(ctx.seed, npieces)
+            mid = Fr(1, 8192)
+            ivs = [None, [Z, ONE], [xl[1], xl[-2]], [xl[2] + mid, xl[-3] - mid], [xl[0], xl[130]], [xl[130], xl[-1]],
+                   [xl[5], xl[7]]]
+            for iv in ivs:
+                lc += [(24, [xl, yl, iv]), (23, [xl, yl, iv])]
+            for iv in [None, [Z, ONE], [xq[1], xq[-2]], [xq[2] + mid, xq[-3] - mid], [xq[0], xq[130]], [xq[130], xq[-1]]]:
+                lc += [(29, [xq, q1, q2, iv]), (28, [xq, q1, q2, iv])]
+            lc += [(23, [xl, yl, [[xl[1], xl[-2]], [xl[3], xl[200]]]]), (27, [xl, yl]), (32, [xq, q1, q2])]
+        ctx.bump("large_func_cases", len(lc))
+        ctx.corr(lc, lambda rid, a: True, affine_copies=False)
+        # narrow integer dtypes for breakpoints AND values (ticks, counts): every query gives what the float64 twin gives
+        import numpy as np
+        for dt in (np.int16, np.int32, np.int64):
+            xi = [0, 40, 100, 160, 250]
+            v1, v2 = [120, 30, 250, 7], [200, 90, 10, 255]
+            if dt is np.int16 or dt is np.int32:
+                xi = [0, 400, 1000, 1600, 30000]
+                v1, v2 = [1200, 300, 25000, 7], [20000, 900, 10, 30000]
+            for kind in ("pwc", "pwl"):
+                def mk(tp):
+                    if kind == "pwc":
+                        return ctx.ps.PieceWiseConstFunc(np.array(xi, dtype=tp), np.array(v1, dtype=tp))
+                    return ctx.ps.PieceWiseLinFunc(np.array(xi, dtype=tp), np.array(v1, dtype=tp), np.array(v2, dtype=tp))
+                res = []
+                for tp in (dt, float):
+                    res.append(core.call_impl(lambda: ctx.impl._quiet(lambda: (lambda f: [
+                        float(f.integral()), float(f.integral((float(xi[0]), float(xi[-1])))), float(f.avrg()),
+                        float(f.integral((float(xi[1]), float(xi[3])))), float(f.avrg((float(xi[1]) + 0.5, float(xi[3]) + 0.5))),
+                        float(f(float(xi[2]) + 1.0))])(mk(tp)))))
+                ctx.check()
+                ctx.nontrivial(("c10dtype", kind, dt.__name__))
+                if not feq(res[0], res[1], 1e-9):
+                    ctx.violate("%s built from %s arrays answers differently from its float64 twin" % (kind, dt.__name__), kind,
+                                [repr(xi), repr(v1), repr(v2)], expected=res[1], got=res[0])
 
 
 # ---------------------------------------------------------------------------
@@ -1946,6 +2250,22 @@ def c11(ctx):
                  proj=lambda v: [x[1:-1] for x in v])
     spec_vs_impl(ctx, [q for q in quads if q[0] != 130], "discrete integral == sum over events strictly inside")
     ctx.corr(cases, lambda rid, a: len(a[0]) >= 4)
+    # LARGE inputs (large.py): long discrete functions - smoothing with non-uniform multiplicities (the first event carries
+    # the largest), sums with 500+ / 1000+ points and events exactly on the edges
+    if large_on(ctx):
+        lc = []
+        for nev, edges in ((300, (False, False)), (300, (True, True)), (600, (True, False)), (1100, (False, True))):
+            d1 = large.long_df(ctx.seed, nev, edges=edges)
+            d2 = large.long_df(ctx.seed + 3, nev + 17, edges=(edges[1], edges[0]))
+            d3 = large.long_df(ctx.seed + 5, 3, edges=(True, True))
+            lc += [(22, list(d1) + list(d2)), (22, list(d2) + list(d1)), (22, list(d1) + list(d3)), (22, list(d3) + list(d1))]
+            for k_ in (0, 1, 2):
+                lc.append((35, list(d1) + [Nat(k_)]))
+            du = large.long_df(ctx.seed + 9, nev, edges=edges, uniform=True)
+            lc += [(35, list(du) + [Nat(1)]), (33, list(d1) + [None]), (33, list(d1) + [[Fr(1, 8), Fr(7, 8)]]),
+                   (34, list(d1) + [[[Fr(1, 8), Fr(5, 8)], [Fr(1, 2), Fr(7, 8)]], True])]
+        ctx.bump("large_func_cases", len(lc))
+        ctx.corr(lc, lambda rid, a: True, affine_copies=False)
 
 
 # ---------------------------------------------------------------------------
@@ -2046,6 +2366,9 @@ def c12(ctx):
             ctx.check()
             if not feq(x, y):
                 ctx.violate("compiled source and fall-back differ", str(rid), args, expected=y, got=x, rid=rid)
+    # LARGE inputs (large.py): both backends against the model on long trains
+    ctx.corr(large_pair_cases(ctx, (1, 2, 6, 7, 8, 9, 10, 11, 12, 13, 14)), lambda rid, a: True, affine_copies=False)
+    large_spike_oracle(ctx, 'c12')
 
 
 def _py_impl(ctx):
@@ -2300,6 +2623,47 @@ def c13(ctx):
                     s.spikes = sp.copy()
                     ids = [id(x.spikes) for x in sts]
                     break
+    # LARGE inputs: long, already sorted float64 trains with spikes outside the common interval - the reconciled copies
+    # are right (model) AND the caller's trains still hold every spike afterwards, for reconcile itself and for the
+    # measures that reconcile by default; lists / integer-typed / float32 arrays in `.spikes` of SEVERAL trains
+    if large_on(ctx):
+        import numpy as np
+        from pyspike.spikes import reconcile_spike_trains
+        for nlong in (150, 201, 260, 600):
+            a = [Fr(i, 1024) for i in sorted(r.sample(range(-100, 1124), nlong))]
+            b = [Fr(i, 1024) for i in sorted(r.sample(range(0, 1025), 40))]
+            trs = [[a, Fr(-100, 1024), Fr(1124, 1024)], [b, Z, ONE], [[Fr(1, 2)], Fr(1, 4), Fr(3, 4)]]
+            trs2 = [[a, Z, ONE], [b, Fr(1, 4), Fr(3, 4)]]
+            ctx.corr([(41, [trs]), (41, [trs2])], lambda rid, a: True, affine_copies=False)
+            sts = [ctx.ps.SpikeTrain(np.array([float(x) for x in t[0]]), (float(t[1]), float(t[2]))) for t in trs]
+            narrow = [ctx.ps.SpikeTrain(np.array([float(x) for x in a]), (0.0, 1.0)),        # spikes outside its own edges
+                      ctx.ps.SpikeTrain(np.array([float(x) for x in b]), (0.25, 0.75))]
+            for nm, call in (("reconcile_spike_trains", lambda: reconcile_spike_trains(narrow)),
+                             ("isi_distance", lambda: ctx.ps.isi_distance(narrow[0], narrow[1])),
+                             ("spike_sync", lambda: ctx.ps.spike_sync(narrow)),
+                             ("spike_profile", lambda: ctx.ps.spike_profile(narrow[0], narrow[1]))):
+                snap = [(s_.spikes.copy(), s_.t_start, s_.t_end) for s_ in narrow]
+                res = core.call_impl(lambda: (ctx.impl._quiet(call), 0)[1])
+                ctx.check()
+                ctx.nontrivial(("c13long", nm, nlong))
+                if isinstance(res, core.Err) or any(not (np.array_equal(s_.spikes, sp_) and s_.t_start == a_ and s_.t_end == b_)
+                                                    for s_, (sp_, a_, b_) in zip(narrow, snap)):
+                    ctx.violate("%s changed (or failed on) a caller's long sorted train that has spikes outside the common "
+                                "interval" % nm, nm, [Nat(nlong)], got=res if isinstance(res, core.Err) else
+                                [len(s_.spikes) for s_ in narrow], expected=[len(sp_) for sp_, _, _ in snap])
+                    break
+        for mkarr, what in ((lambda v: np.array(v, dtype=np.int64), "int64"), (lambda v: np.array(v, dtype=np.float32), "float32"),
+                            (lambda v: list(v), "list"), (lambda v: np.array(v, dtype=float)[::-1][::-1], "view")):
+            raw = [[1.0, 2.0, 3.0, 7.0], [5.0, 6.0, 8.0], [4.0], [2.0, 9.0]]
+            stx = [ctx.ps.SpikeTrain([0.5], (0.0, 10.0)) for _ in raw]
+            for s_, v_ in zip(stx, raw):
+                s_.spikes = mkarr(v_)
+            got = core.call_impl(lambda: [[float(x) for x in t_.spikes] for t_ in reconcile_spike_trains(stx)])
+            ctx.check()
+            ctx.nontrivial(("c13flavour", what))
+            if got != raw:
+                ctx.violate("reconcile_spike_trains of trains whose .spikes is a %s mixes up / changes the spike times" % what,
+                            "reconcile_spike_trains", [what], expected=raw, got=got)
 
 
 # ---------------------------------------------------------------------------
@@ -2454,6 +2818,23 @@ def c14(ctx):
                   (67, [False, m, None, TL, rx]), (69, [False, mt, m, None, TL, rx]), (72, [False, True, mt, m, TL, rx]),
                   (73, [False, mt, m, TL, rx]), (75, [False, False, mt, m, TL, rx])]
     ctx.corr(cases, lambda rid, a: True)
+    # LARGE inputs (large.py): a list of more than 64 trains - the index-selection forms against the model (which is
+    # the sub-list form by theorem), index arrays of narrow integer types included
+    ctx.corr(large_list_cases(ctx, (60, 61, 62, 63, 64, 65, 66, 72), sizes=(70,), medium=False), lambda rid, a: True, affine_copies=False)
+    if large_on(ctx):
+        import numpy as np
+        Lb = large.many_trains(ctx.seed, 120)
+        stb = ctx.impl.trains([T(x) for x in Lb])
+        for dt, sel in ((np.int8, [118, 117]), (np.int8, [100, 3, 119]), (np.uint8, [119, 2]), (np.int16, [100, 101, 5])):
+            for nm, f in (("isi_distance", ctx.ps.isi_distance), ("spike_distance", ctx.ps.spike_distance),
+                          ("spike_sync", ctx.ps.spike_sync)):
+                x = core.call_impl(lambda: ctx.impl._quiet(lambda: float(f(stb, indices=np.array(sel, dtype=dt)))))
+                y = core.call_impl(lambda: ctx.impl._quiet(lambda: float(f([stb[i] for i in sel]))))
+                ctx.check()
+                ctx.nontrivial(("c14dtype", nm, repr(sel), dt.__name__))
+                if not (isinstance(x, float) and isinstance(y, float) and core.close(x, y)):
+                    ctx.violate("%s(list of 120 trains, indices=%s array %r) != the sub-list form" % (nm, dt.__name__, sel), nm,
+                                [repr(sel), dt.__name__], expected=y, got=x)
 
 
 # ---------------------------------------------------------------------------
@@ -2621,6 +3002,22 @@ def c15(ctx):
                 a1, a2 = np.array(w1, dtype=float), np.array(w2, dtype=float)
                 if isinstance(w1, core.Err) or isinstance(w2, core.Err) or (a2 > a1 + 1e-12).any():
                     ctx.violate("raising MRTS increases a multivariate distance", name, [L, Fr(m1), Fr(m2)], expected=w1, got=w2)
+    # LARGE inputs (large.py): the automatic threshold pooled over long recordings / many trains (more than 500 spikes,
+    # more than 16 trains with very different spike counts, a one-spike train among long ones), in both list orders
+    if large_on(ctx):
+        lps = large.long_pairs(ctx.seed)
+        big = [
+            [T(lps[2][0]), T(lps[2][1]), T([Fr(1200, 4096)])],
+            [T(x) for x in large.medium_trains(ctx.seed, 16, k=12)] + [T(x) for x in large.many_trains(ctx.seed, 8, maxk=2)],
+            [T(x) for x in large.many_trains(ctx.seed, 20)],
+            [T(lps[0][0]), T(lps[0][1])], [T(lps[0][1]), T(lps[0][0])],
+            [T(large._fr(sorted(r.sample(range(0, 4097), 600)))), T(large._fr(sorted(r.sample(range(0, 4097), 7))))],
+        ]
+        big.append(list(reversed(big[1])))
+        big.append(list(reversed(big[5])))
+        lc = [(43, [L_]) for L_ in big] + [(42, [L_[0][0], Z, ONE]) for L_ in big]
+        ctx.bump("large_list_cases", len(lc))
+        ctx.corr(lc, lambda rid, a: True, affine_copies=False)
 
 
 # ---------------------------------------------------------------------------
@@ -2815,6 +3212,9 @@ def c16(ctx):
                         ctx.violate("filter keeps a spike with no spike of another train within max_tau",
                                     "filter_by_spike_sync", [L, mt, Fr(m)], got=kept)
                         break
+    # LARGE inputs (large.py): long trains and 16+ trains with a bound on the window
+    ctx.corr(large_pair_cases(ctx, (6, 8, 9, 52, 53, 56)) + large_list_cases(ctx, (62, 63, 69, 75), sizes=(16, 17), medium=False),
+             lambda rid, a: True, affine_copies=False)
 
 
 # ---------------------------------------------------------------------------
@@ -2958,6 +3358,21 @@ def c17(ctx):
     spec_vs_impl(ctx, [q for q in quads if q[0] == 106], "filter keeps exactly the spikes with count > thr*(N-1)",
                  proj=lambda v: [[kr[0][0], kr[1][0]] for kr in v])
     spec_vs_impl(ctx, [q for q in quads if q[0] == 103], "per-spike indicator == pairwise definition")
+    # LARGE inputs (large.py): a burst of 100 partner spikes between two spikes of the filtered train; 130 trains (a spike
+    # coincident with 128 or more partners)
+    if large_on(ctx):
+        lf = []
+        lps = large.long_pairs(ctx.seed)
+        for a, b in lps:
+            lf.append((7, [a, b, Z, ONE, Fr(1, 16), Z]))
+        for a, b in lps[::3]:
+            for thr_ in (Z, Fr(1, 2)):
+                lf.append((70, [False, Z, Z, thr_, [T(a), T(b), T([Fr(1, 2), Fr(3, 4)])]]))
+        base = [Fr(1, 4), Fr(1, 2), Fr(3, 4)]
+        TLc = [T(base)] * 129 + [T([Fr(1, 8)])]
+        lf += [(70, [False, Z, Z, Z, TLc]), (70, [False, Z, Z, Fr(127, 129), TLc]),
+               (70, [False, Z, Z, Fr(1, 2), [T(x) for x in large.many_trains(ctx.seed, 40)]])]
+        ctx.corr(lf, lambda rid, a: True, affine_copies=False)
 
 
 # ---------------------------------------------------------------------------
@@ -3092,6 +3507,10 @@ def c18(ctx):
                       (66, [False, mt, m, None, TL, None]), (72, [False, True, mt, m, TL, None]),
                       (73, [False, mt, m, TL, None]), (75, [False, True, mt, m, TL, None])]
     ctx.corr(cases, lambda rid, a: True)
+    # LARGE inputs (large.py): nothing raises, every profile is well-formed (against the model)
+    ctx.corr(large_pair_cases(ctx, (50, 51, 52, 53, 55)) + large_list_cases(ctx, (60, 61, 62, 63, 68), sizes=(31, 34), medium=False),
+             lambda rid, a: True, affine_copies=False)
+    large_spike_oracle(ctx, 'c18')
 
 
 # ---------------------------------------------------------------------------
@@ -3271,6 +3690,42 @@ def c19(ctx):
         ctx.corr(cases, lambda rid, a: True, functional=True)
         ctx.corr_values("save_lines", 90, [(a, iv, d) for r_, a, iv, d in io_items if r_ == 90], functional=True)
         ctx.corr_values("load_lines", 91, [(a, iv, d) for r_, a, iv, d in io_items if r_ == 91], functional=True)
+        # LARGE inputs: a file of several MiB (read buffers, size hints), tens of thousands of trains; the trains given as a
+        # generator / iterator / tuple / deque (consumed once) - same file, same trains back
+        if large_on(ctx):
+            import collections
+            rr = r
+            bigsets = [
+                [sorted(rr.uniform(0, 100) for _ in range(2000)) for _ in range(40)] + [[], [50.0]],
+                [[rr.uniform(0, 100)] for _ in range(30000)],
+            ]
+            for trains in bigsets:
+                sts = [ps.SpikeTrain(np.array(t), (0.0, 100.0)) for t in trains]
+                ps.save_spike_trains_to_txt(sts, fn, precision=17)
+                sz = os.path.getsize(fn)
+                back = core.call_impl(lambda: [b.spikes.tolist() for b in
+                                               ps.load_spike_trains_from_txt(fn, (0.0, 100.0), ignore_empty_lines=False)])
+                ctx.check()
+                ctx.nontrivial(("c19big", len(trains), sz))
+                if back != trains:
+                    ctx.violate("a large file (%d bytes, %d trains) does not survive the text round trip" % (sz, len(trains)),
+                                "save/load", repr((len(trains), sz)),
+                                got=back if isinstance(back, core.Err) else [len(back), sum(len(b_) for b_ in back)],
+                                expected=[len(trains), sum(len(t_) for t_ in trains)])
+            small = [[1.5, 2.25], [], [3.0], [0.125, 4.5, 99.0]]
+            sts = [ps.SpikeTrain(np.array(t), (0.0, 100.0)) for t in small]
+            for what, mkc in (("list", list), ("tuple", tuple), ("iterator", iter), ("generator", lambda v: (x_ for x_ in v)),
+                              ("deque", collections.deque), ("map", lambda v: map(lambda x_: x_, v))):
+                with open(fn, "w") as f:
+                    f.write("stale content\n")
+                back = core.call_impl(lambda: (ps.save_spike_trains_to_txt(mkc(sts), fn, precision=17),
+                                               [b.spikes.tolist() for b in
+                                                ps.load_spike_trains_from_txt(fn, (0.0, 100.0), ignore_empty_lines=False)])[1])
+                ctx.check()
+                ctx.nontrivial(("c19container", what))
+                if back != small:
+                    ctx.violate("trains given to save_spike_trains_to_txt as a %s do not come back" % what, "save/load", what,
+                                expected=small, got=back)
     finally:
         import shutil
         shutil.rmtree(tmp, ignore_errors=True)
@@ -3412,6 +3867,38 @@ def c20(ctx):
                 any(not (t0 <= x < t1) for x in st[0]):
             ctx.violate("Poisson train not sorted / outside the interval / wrong edges", "generate_poisson_spikes",
                         repr((rate, iv)), got=st)
+    # LARGE inputs: 64+ trains (merge trees, block-wise pooling: 65, 72, 100, 130 trains), 4096+ pooled spikes (chunked
+    # histograms)
+    if large_on(ctx):
+        lc = []
+        for n_ in (64, 65, 72, 100, 130):
+            Lm = large.many_trains(ctx.seed, n_, maxk=6)
+            TLm = [T(x) for x in Lm]
+            lc.append((80, [TLm]))
+            allsp = sorted(Fr(x) for t in Lm for x in t)
+            for nb in (4, 16):
+                xs_ys = core.call_impl(lambda: ps.psth(ctx.impl.trains(TLm), 1.0 / nb))
+                ctx.corr_values("psth", 92, [([Z, ONE, Nat(nb), allsp], xs_ys, None)], functional=True)
+        rr = r
+        for n_, k_ in ((64, 70), (3, 3000), (130, 40)):
+            Lp = [sorted(set(Fr(rr.randint(0, 8192), 8192) for _ in range(k_))) for _ in range(n_)]
+            allsp = sorted(x for t in Lp for x in t)
+            for nb in (8, 5):
+                xs_ys = core.call_impl(lambda: ps.psth(ctx.impl.trains([T(x) for x in Lp]), 1.0 / nb))
+                ctx.check()
+                ctx.nontrivial(("c20big", n_, k_, nb))
+                ok = not isinstance(xs_ys, core.Err) and len(xs_ys[1]) == nb and sum(xs_ys[1]) == len(allsp)
+                if ok:
+                    xs, ys = xs_ys
+                    ok = all(ys[q] == sum(1 for x in allsp if xs[q] <= float(x) and (float(x) < xs[q + 1] or (q == nb - 1 and float(x) <= xs[q + 1])))
+                             for q in range(nb))
+                if not ok:
+                    ctx.violate("psth of %d pooled spikes: bin values are not the spike counts" % len(allsp), "psth",
+                                repr((n_, k_, nb)), expected=len(allsp),
+                                got=xs_ys if isinstance(xs_ys, core.Err) else [sum(xs_ys[1]), xs_ys[1]])
+            lc.append((80, [[T(x) for x in Lp]]))
+        ctx.bump("large_list_cases", len(lc))
+        ctx.corr(lc, lambda rid, a: True, affine_copies=False)
 
 
 # ---------------------------------------------------------------------------
